@@ -46,6 +46,8 @@ def matcher_runs(t: str):
                               maxt=3, maxn=3, tails=["none", "x"])),
             ("T2-N3-nested", dict(lits=["a"], wilds=["x"], anon=True, nested=True, quants=q4, nodes=["a", "ga", "gb"],
                                   maxt=2, maxn=3, tails=["none", "x"])),
+            ("T2-N3-lookalikes", dict(lits=["a"], wilds=["x"], anon=False, nested=False, quants=q4, nodes=["a", "sa", "n1", "s1"],
+                                      maxt=2, maxn=3, tails=["none", "x"])),
         ]
     return [
         ("T3-N4", dict(lits=["a", "b"], wilds=["x", "y"], anon=True, nested=False, quants=q4, nodes=["a", "b"],
@@ -56,11 +58,14 @@ def matcher_runs(t: str):
                               maxt=3, maxn=4, tails=["none", "x"])),
         ("T4-N4-x", dict(lits=["a"], wilds=["x"], anon=True, nested=False, quants=["1", "?", "*"], nodes=["a", "b"],
                          maxt=4, maxn=4, tails=["none", "x"])),
+        ("T3-N4-lookalikes", dict(lits=["a"], wilds=["x", "y"], anon=False, nested=False, quants=q4, nodes=["a", "sa", "n1", "s1"],
+                                  maxt=3, maxn=4, tails=["none", "x"])),
     ]
 
 
 # --------------------------------------------------------------------------------------
-NODE_SRC = {"a": "a", "b": "b", "c": "c", "ga": "g(a)", "gb": "g(b)", "gc": "g(c)"}
+# "sa" / "s1" are STRING constants whose text is the name a / the number 1: different trees from the atoms "a" and "n1"
+NODE_SRC = {"a": "a", "b": "b", "c": "c", "ga": "g(a)", "gb": "g(b)", "gc": "g(c)", "sa": "'a'", "n1": "1", "s1": "'1'"}
 SRC_NODE = {v: k for k, v in NODE_SRC.items()}
 
 
